@@ -23,7 +23,7 @@ PENDING = {k: "simulation target (DESIGN 3) whose check is still being built in 
 CHECKS = {
  "C14": dict(engine="procsim", category="fault_enumeration", design="DESIGN.md section 3 (C14)",
    technique="deterministic simulation over process incarnations: a seeded controller drives real interpreter incarnations (per-incarnation PYTHONHASHSEED) sharing a scratch disk, injecting crashes inside the cache write, cache damage, source edits and mtime clock jumps; plus exhaustive truncation points at the decode layer",
-   text="A run is a seeded history over one generated namespace: write source, load, then edits (mtime and/or size, clock jumping back), damage to the cache file (truncation anywhere, empty, header-only, magic, mtime/size +-1, delete), loads that lose power or get ENOSPC after k bytes of the cache write, and clean loads - every load in a real interpreter incarnation forked from a booted basilisp of one of four hash seeds (0 = hash randomisation off, 11, 22, 33), through the real import machinery. Oracles after every judged load: snapshot (Vars, metadata, canonical values, keyword interning, recorded calls) equals a from-source reference incarnation under the same seed; an invalid cache is never executed, not even partly (effect log exactly one pass); the import succeeds; a valid cache is left behind. Every final cache file is cut at every proper prefix (exhaustive up to 20 KB quick / 150 KB thorough, dense sample beyond) through the real header+unmarshal function, and one representative of every exception class seen goes through the full import path. Thorough adds the bundled namespaces written under one seed, loaded under another and compared with from-source.",
+   text="A run is a seeded history over one generated namespace: write source, load, then edits (mtime and/or size, clock jumping back), damage to the cache file (truncation anywhere, empty, header-only, magic, mtime/size +-1, delete), loads that lose power or get ENOSPC after k bytes of the cache write, loads during which the source is edited (after read+compile, before the cache write), and clean loads - every load in a real interpreter incarnation forked from a booted basilisp of one of four hash seeds (0 = hash randomisation off, 11, 22, 33), through the real import machinery. Oracles after every judged load: snapshot (Vars, metadata, canonical values, keyword interning, recorded calls) equals a from-source reference incarnation under the same seed; an invalid cache is never executed, not even partly (effect log exactly one pass); the import succeeds; a valid cache is left behind. Every final cache file is cut at every proper prefix (exhaustive up to 20 KB quick / 150 KB thorough, dense sample beyond) through the real header+unmarshal function, and one representative of every exception class seen goes through the full import path. Thorough adds the bundled namespaces written under one seed, loaded under another and compared with from-source.",
    note="Trusted: crash model = a prefix of the intended bytes is durable (what the property states); fork of a booted interpreter stands for a fresh process of that hash seed; the snapshot canonicaliser; the debug Var *generated-python* (present only after a from-source compile, by design) is excluded. A load that was itself crashed is not judged."),
  "C19": dict(engine="netsim", category="fault_enumeration", design="DESIGN.md section 3 (C19)",
    technique="deterministic simulation of the nREPL socket loop on simulated stream sockets with seeded fragmentation/EOF/reset/send faults, plus exhaustive cut-point enumeration of generated bencode streams against a reference codec",
@@ -31,23 +31,23 @@ CHECKS = {
    note="Trusted: reference codec, SimSocket semantics (reliable ordered stream; no loss/reordering injected). Exhaustive per stream at the decoder layer, sampled through the server loop. A change confined to edn.lpy/json.lpy is not detected by this check."),
  "C06": dict(engine="threadsim", category="exploration", design="DESIGN.md section 3 (C06)",
    technique="deterministic simulation: 2-3 real consumer threads over the real native LazySeq under a seeded baton scheduler, contended native-mutex acquisitions routed through a guarded hook; producer fault injection; reference pipeline + demand model",
-   text="Seeded schedule search over 2-3 real threads walking one shared lazy sequence (instrumented lazy-seq cells, a single-use Python iterator, iterate f, or repeatedly n f; under 0-3 stages drawn from 27: map, filter, remove, keep, concat as suffix/prefix/lazy-cat, take, drop, take-while, drop-while, two-collection map, mapcat, interleave, map-indexed, keep-indexed, take-nth, interpose, distinct, dedupe, drop-last, cycle, flatten, partition with and without step, partition-all, partition-by; each consumer reaches the shared head directly, through its own (lazy-seq head) wrapper, or through (with-meta head m)) with scripts of first/rest/next/seq/count/nth/iteration; producers yield, sleep in virtual time, throw on their first call, touch themselves or a later cell. The native per-cell mutex stays the arbiter: a failed try_lock calls the guarded hook which parks the thread in the kernel. Oracles: producer active<=1 per cell, at most one successful return, re-run only after a throw; every value read equals the pure reference pipeline; a producer exception reaches the consumer that triggered it and later accesses re-raise or yield the right element, never a shortened sequence; a producer starts only if the output index demanded so far needs it; pipeline fns run once per element; deadlock = kernel DEADLOCK. Plus a declared non-simulated real-thread probe (6 variants) of the blocking native wait that the hook bypasses.",
+   text="Seeded schedule search over 2-3 real threads walking one shared lazy sequence (instrumented lazy-seq cells, a single-use Python iterator, iterate f, repeatedly n f, or a re-iterable non-seq Python object handed raw to the first stage; under 0-3 stages drawn from 27: map, filter, remove, keep, concat as suffix/prefix/lazy-cat, take, drop, take-while, drop-while, two-collection map, mapcat, interleave, map-indexed, keep-indexed, take-nth, interpose, distinct, dedupe, drop-last, cycle, flatten, partition with and without step, partition-all, partition-by; each consumer reaches the shared head directly, through its own (lazy-seq head) wrapper, or through (with-meta head m)) with scripts of first/rest/next/seq/count/nth/iteration; producers yield, sleep in virtual time, throw on their first call, touch themselves or a later cell. The native per-cell mutex stays the arbiter: a failed try_lock calls the guarded hook which parks the thread in the kernel. Oracles: producer active<=1 per cell, at most one successful return, re-run only after a throw; every value read equals the pure reference pipeline; a producer exception reaches the consumer that triggered it and later accesses re-raise or yield the right element, never a shortened sequence; a producer starts only if the output index demanded so far needs it; pipeline fns run once per element; deadlock = kernel DEADLOCK. Plus a declared non-simulated real-thread probe (6 variants) of the blocking native wait that the hook bypasses.",
    note="Trusted: the reference stages in models/seqref.py (one minimal-pull generator per stage, from which element values AND the demand table are derived; mapcat and cycle may look at their argument's first element when created, as in Clojure), kernel spin semantics (a failed try-lock is retried after any real progress). The blocking slow path of the native mutex is NOT simulated; it is covered only by the real-thread probe, reported separately in the evidence. Needs hook commit c27de39 (guard BASILISP_VERIF_SIM)."),
  "C11": dict(engine="threadsim", category="exploration", design="DESIGN.md section 3 (C11)",
    technique="deterministic simulation: generated binding programs run on real threads and a real reused pool under a seeded baton scheduler, push faults injected, per-thread binding-stack reference model",
-   text="Seeded search over generated programs (nested binding / with-bindings / runtime.bindings to depth 4, set!, try/throw, alter-var-root, future with creator work before deref, bound-fn on a fresh and on the same thread, pmap) executed by 1-3 real threads plus a real 1-3 worker pool with worker reuse; push faults (plain Var inside a multi-Var binding at every position, validator rejection) and body faults; the Var hash order that decides push order is a seeded permutation; every run gets Vars that no thread has ever bound, built by the real constructor. Every probe's observed (*a* *b* *c*) is compared with a per-thread binding-stack model; catch clauses, probe counts and a final probe on every pool worker are checked. The forms under test are compiled by the real compiler (helpers once per lane; 6% of runs compile the whole program).",
+   text="Seeded search over generated programs (nested binding / with-bindings / runtime.bindings to depth 4, set!, try/throw, alter-var-root, with-redefs under a thread binding, future with creator work before deref, bound-fn on a fresh and on the same thread, pmap) executed by 1-3 real threads plus a real 1-3 worker pool with worker reuse; push faults (plain Var inside a multi-Var binding at every position, validator rejection) and body faults; the Var hash order that decides push order is a seeded permutation; every run gets Vars that no thread has ever bound, built by the real constructor. Every probe's observed (*a* *b* *c*) is compared with a per-thread binding-stack model; catch clauses, probe counts and a final probe on every pool worker are checked. The forms under test are compiled by the real compiler (helpers once per lane; 6% of runs compile the whole program).",
    note="Trusted: the 120-line binding-stack model, sim lock semantics; thread-locals are real because tasks are real threads. Root changes come from one designated thread and concurrent readers accept overlapping values."),
  "C18": dict(engine="threadsim", category="exploration", design="DESIGN.md section 3 (C18)",
    technique="deterministic simulation: op histories sequentially and spread over 2-4 real threads under a seeded baton scheduler, compared with a from-scratch instance and a closure reference model",
-   text="Seeded search over histories of add/remove/remove-all/prefer/derive/underive/call on one multimethod with a per-run hierarchy atom: 30% sequential (every dispatch value called after every op), 70% concurrent (1-2 mutators, 1-2 callers, edge-toggle scenarios, throwing dispatch fn) at line and opcode granularity, under 2 (quick) or 8 (thorough) PYTHONHASHSEED values. Oracles: O1 a fresh instance built from the current tables answers identically (after every op / after quiescence), also with reversed insertion order; O2 independent closure-model reference on undisputed cases; O3 every concurrent call is explained by a state version inside its invoke-return window; O4 isa?/parents/ancestors/descendants agree with the edge-set closure.",
+   text="Seeded search over histories of add/remove/remove-all/prefer/derive/underive/call on one multimethod (versioned method bodies; a per-run hierarchy atom, or in a quarter of the sequential runs the process-wide hierarchy through the 2-arity derive/underive; optional custom default value): 30% sequential (every dispatch value called after every op), 70% concurrent (1-2 mutators, 1-2 callers, edge-toggle scenarios, throwing dispatch fn) at line and opcode granularity, under 2 (quick) or 8 (thorough) PYTHONHASHSEED values. Oracles: O1 a fresh instance built from the current tables answers identically (after every op / after quiescence), also with reversed insertion order; O2 independent closure-model reference on undisputed cases; O3 every concurrent call is explained by a state version inside its invoke-return window; O4 isa?/parents/ancestors/descendants agree with the edge-set closure.",
    note="Trusted: the closure model (basilisp's documented class semantics: supers are ancestors, derive relations of superclasses are not inherited), sim Lock/RLock semantics. Mutual-dominance and non-transitive preference chains are treated as disputed and accepted either way."),
  "C13": dict(engine="threadsim", category="exploration", design="DESIGN.md section 3 (C13)",
    technique="deterministic simulation: seeded baton scheduler + virtual clock with forward jumps over the real Delay/Promise/Future/ThreadPoolExecutor, linearizability vs write-once cell, timeout rules on virtual time",
-   text="Seeded schedule search over 2-4 real threads racing one delay / promise / future (real pool, real stdlib worker loop on sim primitives) with bodies that yield, sleep in virtual time, block on a promise that an independent task delivers, or throw from a palette incl. TimeoutError, timed derefs whose deadlines collide with deliveries, forward clock jumps and pool pressure; oracles: body at most one at a time and never after a normal return, all derefs agree, promise history linearizable against a write-once cell, timed deref yields the timeout value only if nothing completed before its virtual deadline and never early, future deref == body outcome, realized? monotone; future-cancel / future-cancelled? follow the concurrent.futures contract (a cancel wins iff the body never starts, the outcome is then CancelledError, a refused cancel means the body runs); promises are also delivered through (p v); lost wake-ups surface as kernel deadlock. Sampling with measured reach.",
+   text="Seeded schedule search over 2-4 real threads racing one delay / promise / future (real pool, real stdlib worker loop on sim primitives) with bodies that yield, sleep in virtual time, block on a promise that an independent task delivers, deref their own delay, or throw from a palette incl. TimeoutError, timed derefs whose deadlines collide with deliveries, forward clock jumps and pool pressure; oracles: body at most one at a time and never after a normal return, all derefs agree, promise history linearizable against a write-once cell, timed deref yields the timeout value only if nothing completed before its virtual deadline and never early, future deref == body outcome, realized? monotone; future-cancel / future-cancelled? follow the concurrent.futures contract (a cancel wins iff the body never starts, the outcome is then CancelledError, a refused cancel means the body runs); promises are also delivered through (p v); lost wake-ups surface as kernel deadlock. Sampling with measured reach.",
    note="Trusted: sim Lock/RLock/Condition/Semaphore/SimpleQueue/Thread semantics (no spurious wake-ups, FIFO notify), virtual clock advancing only at idle or by injected jumps; concurrent.futures runs real code on those primitives."),
  "C12": dict(engine="threadsim", category="exploration", design="DESIGN.md section 3 (C12)",
    technique="deterministic simulation: seeded baton scheduler (random walk + PCT) over real threads, linearizability oracle vs sequential register, callback fault injection",
-   text="Seeded schedule search (random walk and PCT d<=3, line granularity plus opcode granularity in 15% of runs) over 2-3 real threads x 1-3 atom operations with throwing/slow update fns and rejecting validators; every complete history is checked for linearizability against a sequential register with unique values, validator invisibility and watch transitions; solo runs check bounded termination over NaN-like values. Sampling with measured reach, not enumeration.",
+   text="Seeded schedule search (random walk and PCT d<=3, line granularity plus opcode granularity in 15% of runs) over 2-3 real threads x 1-3 atom operations with throwing/slow update fns, rejecting validators (also for a value equal to the one it replaces) and a watch that itself updates the atom; every complete history is checked for linearizability against a sequential register with unique values, validator invisibility and watch transitions; solo runs check bounded termination over NaN-like values. Sampling with measured reach, not enumeration.",
    note="Trusted: sim RLock semantics (DESIGN 8a), line/opcode-level preemption is at least as coarse as CPython's, the 60-line register model. The Atom lock is a sim primitive; everything else (Atom, RefBase, core.lpy CAS loops, trampoline) is the real code."),
 }
 
